@@ -9,6 +9,7 @@ package racecheck
 
 import (
 	"context"
+	"math/rand"
 	"sync"
 	"sync/atomic"
 
@@ -37,7 +38,7 @@ func ZZRaceLitmus() {
 	nd.Schedule(nd.Param("P", 2))
 	nd.Races("*")
 	b := &box{m: map[string]int{}}
-	idiom := nd.Choose("idiom", 18)
+	idiom := nd.Choose("idiom", 19)
 	racy := false
 	switch idiom {
 	case 0: // mutex
@@ -109,6 +110,10 @@ func ZZRaceLitmus() {
 		type pair struct{ a, b int }
 		p := &pair{}
 		run2(func() { p.a = 1 }, func() { q := *p; _ = q })
+	case 18: // RACY: one math/rand source drawn from by two goroutines
+		racy = true
+		src := rand.NewSource(1)
+		run2(func() { src.Int63() }, func() { src.Int63() })
 	}
 	if racy {
 		nd.Assert(nd.RacesSeen() > 0, "RACEMODEL/unsynchronised-access-not-flagged")
